@@ -4,6 +4,7 @@ import Holpy.C17.CompleteFinal
 import Holpy.C17.Rename
 import Holpy.C17.ExplainSpecProofs
 import Holpy.C17.HolTheorems
+import Holpy.C17.ExplainTotal
 /-
 C17 — property theorems about the model of `prover/congc.py: CongClosure` (`Model.lean`).
 `run ops` is the structure after the operations `ops` (`add_var` / `merge(a, b)` /
@@ -179,6 +180,39 @@ theorem renaming_invariant (ρ : Cst → Cst) (inj : ∀ x y, ρ x = ρ y → x 
 
 /- non-vacuity: the earlier example with every constant shifted by 10. -/
 example : test (run ([Op.mergeF 1 2 3, .mergeF 4 5 6, .mergeC 1 4, .mergeC 2 5].map (Op.rename (· + 10)))) 13 16 = .ok true := by rfl
+
+/-- The proof forest is well formed in every reachable state: its keys are the entered constants,
+every parent pointer stays inside the class and leads to an entered constant, it is acyclic (ranked),
+every class has exactly one root, and no `_path_to_root` walk inside `merge` ever ran out of steps
+(`stuck` is never set: the model's bound `len(proof_forest)` for the walk always suffices). -/
+theorem proof_forest_wellformed (ops : List Op) : ForestInv (run ops) :=
+  run_forest ops
+
+example : (run [.mergeC 1 2, .mergeC 3 2, .mergeC 4 3]).forest =
+    [(2, none), (1, some (2, .const 1 2)), (3, some (2, .const 3 2)), (4, some (3, .const 4 3))] := by rfl
+
+/-- `explain` is total up to its recursion bound (PARTIAL: what is missing for `explain_total` is that the
+recursion through application labels is well founded within `len(proof_forest) + 1` levels -- the
+time-stamp argument of Nieuwenhuis-Oliveras; the harness reports any failing `explain` on a valid equality
+as a violation).  For two entered constants that `test` reports equal: `cur_path` is computed (no KeyError, no
+`assert`, the walks to the root finish), and whatever the recursion bound and the memo dictionary, `explain`
+and all its recursive calls can only fail by exhausting that bound. -/
+theorem explain_total_partial (ops : List Op) (a b : Cst) (h : test (run ops) a b = .ok true) :
+    (∃ p, curPath (run ops).forest a b = .ok p) ∧
+    ∀ fuel res e, explain (run ops).forest fuel a b res = .error e → e = .fuel := by
+  have F := run_forest ops
+  have A := argsOK_of (run_sound ops) (run_complete ops) (run_pending_nil ops)
+  unfold test at h
+  split at h
+  · next ra rb h1 h2 =>
+    simp only [Except.ok.injEq, decide_eq_true_eq] at h
+    have da : Dom (run ops) a := ⟨ra, h1⟩
+    have db : Dom (run ops) b := ⟨rb, h2⟩
+    have hab : repOf (run ops) a = repOf (run ops) b := by rw [repOf_of_get h1, repOf_of_get h2, h]
+    exact ⟨curPath_defined F da db hab, fun fuel res e he => explain_only_fuel F A fuel a b res e da db hab he⟩
+  · cases h
+
+example : ∃ p, curPath (run [.mergeF 1 2 3, .mergeF 4 5 6, .mergeC 1 4, .mergeC 2 5]).forest 3 6 = .ok p := ⟨_, rfl⟩
 
 /-- `specTest eqs a b` (merge exactly the equations `eqs` into an empty structure and ask) decides the
 congruence closure of a finite list of equations: the executable form of the specification `Cl`. -/
